@@ -1405,7 +1405,11 @@ vnacal_t *vnacal_load(const char *pathname,
 		vcp->vc_filename, vls.vls_major_version, vls.vls_minor_version);
 	goto error;
     }
-    yaml_parser_initialize(&parser);
+    if (!yaml_parser_initialize(&parser)) {
+	_vnacal_error(vcp, VNAERR_SYSTEM, "yaml_parser_initialize: %s: %s",
+		vcp->vc_filename, strerror(errno));
+	goto error;
+    }
     delete_parser = true;
     yaml_parser_set_input_file(&parser, fp);
     if (!yaml_parser_load(&parser, &vls.vls_document)) {
